@@ -382,7 +382,13 @@ def _request_carries_the_arguments(op, argmap):
             pay = I.getattr(items[0], 'request_payload')
             for a, pf in argmap.items():
                 want = I.ghost_globals.get('__arg_' + a)
-                got = I.getattr(pay, pf)
+                if pf.startswith('?'):      # judged only when the argument is given (see the note at _mac)
+                    if want is None:
+                        continue
+                    pf = pf[1:]
+                got = pay
+                for part in pf.split('.'):      # 'unique_identifier.value': through the wrapping primitive
+                    got = None if got is None else I.getattr(got, part)
                 if got is want:
                     continue
                 if got is None or want is None:
@@ -467,8 +473,26 @@ for fn, kinds, fields in DICT_OPS:
         c.trace("request-carries-the-arguments", _request_carries_the_arguments(*REQUEST_SIDE[fn]))
 
 
+ONE_ITEM_REQUEST_SIDE = {
+    "_create": {'object_type': 'object_type', 'template_attribute': 'template_attribute'},
+    "_get": {'unique_identifier': 'unique_identifier'},
+    "_activate": {'unique_identifier': 'unique_identifier.value'},
+    "_destroy": {'unique_identifier': 'unique_identifier.value'},
+    "_revoke": {'unique_identifier': 'unique_identifier.value'},
+    "_register": {'object_type': 'object_type', 'template_attribute': 'template_attribute', 'secret': 'managed_object'},
+    "_locate": {'maximum_items': 'maximum_items', 'offset_items': 'offset_items'},
+    # _mac wraps the identifier unconditionally: without one the request carries an EMPTY Unique
+    # Identifier (UniqueIdentifier(None).value == '') instead of none.  The request is decodable, which is
+    # all C19 states about requests, so the clause judges the identifier only when one is given; the
+    # observation is recorded in DESIGN.md (I.7), not as a finding.
+    "_mac": {'unique_identifier': '?unique_identifier.value', 'data': 'data.value'},
+}
 for fn, op, kinds, fields in OPS:
-    contract(K + fn).trace("raises-only-when-the-wire-does", _raises_only_from_the_wire)
+    c = contract(K + fn)
+    c.trace("raises-only-when-the-wire-does", _raises_only_from_the_wire)
+    for a in ONE_ITEM_REQUEST_SIDE[fn]:
+        c.let('__arg_' + a, a)
+    c.trace("request-carries-the-arguments", _request_carries_the_arguments(op, ONE_ITEM_REQUEST_SIDE[fn]))
 contract(K + "send_request_payload")    # (raises TypeError / InvalidMessage / OperationFailure by design: own clauses above)
 
 
